@@ -323,11 +323,39 @@ pub fn hang_signature(kind: &str) -> String {
     format!("C07|hang|{kind}")
 }
 
+thread_local! {
+    static JOURNAL: std::cell::RefCell<Option<std::fs::File>> = const { std::cell::RefCell::new(None) };
+}
+
+/// write the case this thread is about to run to its journal file (read by the supervising process when
+/// the worker is killed by a signal)
+fn journal(desc: &str) {
+    use std::io::{Seek, SeekFrom, Write};
+    let dir = match std::env::var("VERIF_C07_JOURNAL") {
+        Ok(d) => d,
+        Err(_) => return,
+    };
+    JOURNAL.with(|j| {
+        let mut j = j.borrow_mut();
+        if j.is_none() {
+            let name = format!("{dir}/t-{:?}.json", std::thread::current().id())
+                .replace(['(', ')'], "");
+            *j = std::fs::File::create(name).ok();
+        }
+        if let Some(f) = j.as_mut() {
+            let _ = f.seek(SeekFrom::Start(0));
+            let _ = f.write_all(desc.as_bytes());
+            let _ = f.set_len(desc.len() as u64);
+        }
+    });
+}
+
 pub fn oracle(c: &TotalCase, obs: &mut Obs) -> Vec<Violation> {
     let on = MONITORING.load(std::sync::atomic::Ordering::Relaxed);
     let tid = std::thread::current().id();
     if on {
         let desc = serde_json::to_string(c).unwrap_or_default();
+        journal(&desc);
         inflight().lock().unwrap().insert(tid, (Instant::now(), desc));
     }
     let out = oracle_inner(c, obs);
@@ -364,6 +392,8 @@ fn with_hang_monitor(ctx: &Ctx, body: &(dyn Fn() + Sync)) {
                         case["target"].as_str().unwrap_or("?")
                     );
                     let mut obs = Obs::default();
+                    obs.eval();
+                    obs.nontrivial_str(&desc);
                     ctx.report(&mut obs, "mutated-inputs", viol(sig, detail), &|| case.clone());
                     ctx.total.lock().unwrap().merge(obs);
                     let code = ctx.finish();
@@ -509,9 +539,9 @@ fn scaling(ctx: &Ctx, obs: &mut Obs) -> Vec<Violation> {
         ("newline-colon", Box::new(|n| "\n:".repeat(n / 2))),
     ];
     let sizes: Vec<usize> = if ctx.quick() {
-        vec![4096, 8192, 16384]
+        vec![4096, 8192, 16384, 70_000, 200_000]
     } else {
-        vec![4096, 8192, 16384, 65536, 1 << 20]
+        vec![4096, 8192, 16384, 65536, 70_000, 200_000, 1 << 20]
     };
     for (name, f) in &families {
         let mut prev: Option<f64> = None;
@@ -530,6 +560,8 @@ fn scaling(ctx: &Ctx, obs: &mut Obs) -> Vec<Violation> {
                     if let Some(v) = panic_viol("size-scaling", &e, &format!("{name} n={n}")) {
                         local.push(v);
                     }
+                    // every rendering of the error, with the (large) original text as context
+                    after_error(&e, &x, &mut local);
                 }
             }
             let dt = t0.elapsed().as_secs_f64();
@@ -563,7 +595,7 @@ fn scaling(ctx: &Ctx, obs: &mut Obs) -> Vec<Violation> {
 }
 
 pub fn run(ctx: &Ctx) {
-    ctx.add_rule("valid messages / block-4 texts / field contents / headers / message JSON of all types with one text mutation (truncation, insertion or replacement of ASCII structure characters and 2-, 3-, 4-byte characters at boundary and random offsets, range deletion/duplication, structural soup) given to every public entry point (parse_auto, parse::<T>, parse_with_errors, extract_block 0..6, parse_from_block4, legacy field map + tracker + sequences, 114 field parsers with and without variant, 4 header parsers, from_value + serialisation + Display, the 3 text-taking plugin functions) and, on every value obtained, to serialisation, validation, JSON conversion; on every error, to all renderings; plus size-scaling families up to 16 KB (1 MB in thorough); oracle: catch_unwind => no panic; non-trivial = input longer than one character; distinct by (entry kind, target, input)");
+    ctx.add_rule("valid messages / block-4 texts / field contents / headers / message JSON of all types with one text mutation (truncation, insertion or replacement of ASCII structure characters and 2-, 3-, 4-byte characters at boundary and random offsets, range deletion/duplication, structural soup) given to every public entry point (parse_auto, parse::<T>, parse_with_errors, extract_block 0..6, parse_from_block4, legacy field map + tracker + sequences, 114 field parsers with and without variant, 4 header parsers, from_value + serialisation + Display, the 3 text-taking plugin functions) and, on every value obtained, to serialisation, validation, JSON conversion; on every error, to all renderings; plus size-scaling families up to 200 KB (1 MB in thorough), whose errors are rendered too; oracle: catch_unwind => no panic; non-trivial = input longer than one character; distinct by (entry kind, target, input)");
     ctx.assume("panic signature = (panic kind, innermost library frame from the symbolised backtrace), line numbers excluded");
     ctx.assume("time: only gross super-quadratic growth is judged (16 KB within 60 s, doubling ratio <= 12 when above 0.5 s)");
     ctx.assume(&format!("non-termination: one case (input of at most a few KB) that keeps an entry point busy for {} s is a violation; such cases otherwise take micro- to milliseconds", hang_limit_s()));
